@@ -21,21 +21,25 @@ type GatedWriter struct {
 var _ io.Writer = &GatedWriter{}
 
 // Flush tells the GatedWriter to flush any buffered data and to stop
-// buffering.
+// buffering. The gate is opened and the buffer drained inside one exclusive
+// critical section, so a line written concurrently can neither overtake the
+// buffered lines nor be lost.
 func (w *GatedWriter) Flush() {
 	w.lock.Lock()
-	w.flush = true
-	w.lock.Unlock()
+	defer w.lock.Unlock()
 
+	w.flush = true
 	for _, p := range w.buf {
-		w.Write(p)
+		_, _ = w.Writer.Write(p)
 	}
 	w.buf = nil
 }
 
 func (w *GatedWriter) Write(p []byte) (n int, err error) {
-	w.lock.RLock()
-	defer w.lock.RUnlock()
+	// Writes append to the shared buffer while the gate is closed, so they
+	// need the exclusive lock, not the read lock.
+	w.lock.Lock()
+	defer w.lock.Unlock()
 
 	if w.flush {
 		return w.Writer.Write(p)
